@@ -24,6 +24,7 @@ DERIVES = ["cast_domain", "real", "imag", "conjugate", "neg", "at", "extract", "
 HANDLES = ["val", "raw", "asnumpy", "val.asnumpy", "val.val", "val_slice", "val_view", "val_reshape", "val_T",
            "val_real", "val_rw", "asnumpy_rw", "val_flatten_index", "to_dict_val"]
 OPS = ["makeOp", "Adder", "GaussianEnergy", "ScalingLike"]
+TOUCHES = ["asnumpy", "val", "copy", "view", "at", "lock", "readonly", "np_asarray", "getitem", "astype", "reshape"]
 WRITES = ["setitem", "setslice", "iadd", "np_add_out", "fill", "sort", "copyto", "imul_scalar", "np_multiply_out_any",
           "put", "itemset_via_flat"]
 
@@ -103,7 +104,7 @@ def domain_for(shape):
     return ift.DomainTuple.make(ift.RGSpace(shape))
 
 
-def step_construct(w, ctor, kind, seed, two_d):
+def step_construct(w, ctor, kind, seed, two_d, prewrap=False):
     import nifty.cl as ift
     shape = (2, 3) if two_d else (4,)
     if ctor.startswith("MultiField") or ctor == "makeField_dict":
@@ -123,6 +124,9 @@ def step_construct(w, ctor, kind, seed, two_d):
     else:
         a, shp = src_array(kind, seed, shape)
         dom = domain_for(shp)
+        if prewrap and ctor != "Field_of_AnyArray":
+            # another wrapper of the source array that exists before the field does
+            w.targets.append({"obj": ift.AnyArray(a), "label": "pre-existing-AnyArray", "copy": False})
         if ctor == "Field":
             f = ift.Field(dom, a)
         elif ctor == "from_raw":
@@ -253,6 +257,49 @@ def step_op(w, how, i, pick):
     w.stats["operators"] += 1
 
 
+def step_touch(w, how, j):
+    """A public, non-writing call on a target (source array, wrapper or handle).
+    None of these may make a later write succeed."""
+    import nifty.cl as ift
+    if not w.targets:
+        return
+    t = w.targets[j % len(w.targets)]
+    obj = t["obj"]
+    isany = isinstance(obj, ift.AnyArray)
+    new = None
+    try:
+        if how == "asnumpy" and isany:
+            new = obj.asnumpy()
+            w.asnumpy_called = True
+        elif how == "val" and isany:
+            new = obj.val
+        elif how == "copy":
+            new, cp = obj.copy(), True
+            w.targets.append({"obj": new, "label": "copy-of-" + t["label"], "copy": True})
+            new = None
+        elif how == "view":
+            new = obj.view()
+        elif how == "at" and isany:
+            new = obj.at(-1)
+        elif how == "lock" and isany:
+            obj.lock()
+        elif how == "readonly" and isany:
+            obj.readonly
+        elif how == "np_asarray" and not isany:
+            new = np.asarray(obj)
+        elif how == "getitem":
+            new = obj[...]
+        elif how == "astype" and not isany:
+            new = obj.astype(obj.dtype, copy=False)
+        elif how == "reshape":
+            new = obj.reshape(obj.shape)
+    except (TypeError, ValueError, AttributeError, IndexError):
+        return
+    w.stats["touches"] = w.stats.get("touches", 0) + 1
+    if new is not None and isinstance(new, (np.ndarray, ift.AnyArray)):
+        w.targets.append({"obj": new, "label": f"{how}-of-{t['label']}", "copy": t["copy"]})
+
+
 def step_write(w, how, j, seed):
     """The adversary: one write attempt through target j."""
     import nifty.cl as ift
@@ -342,13 +389,15 @@ def run_program(prog, stats=None):
             last = None
             k = st["k"]
             if k == "construct":
-                step_construct(w, st["ctor"], st["src"], st["seed"], st["two_d"])
+                step_construct(w, st["ctor"], st["src"], st["seed"], st["two_d"], st.get("prewrap", False))
             elif k == "derive":
                 step_derive(w, st["how"], st["i"], st["pick"])
             elif k == "handle":
                 step_handle(w, st["how"], st["i"], st["pick"])
             elif k == "op":
                 step_op(w, st["how"], st["i"], st["pick"])
+            elif k == "touch":
+                step_touch(w, st["how"], st["j"])
             else:
                 last = step_write(w, st["how"], st["j"], st["seed"])
             check(w, last)
@@ -362,13 +411,15 @@ def strategies():
     i = st.integers(0, 7)
     construct = st.fixed_dictionaries({"k": st.just("construct"), "ctor": st.sampled_from(CTORS),
                                        "src": st.sampled_from(SRC_KINDS), "seed": st.integers(0, 99),
-                                       "two_d": st.booleans()})
+                                       "two_d": st.booleans(), "prewrap": st.sampled_from([True, True, False])})
     derive = st.fixed_dictionaries({"k": st.just("derive"), "how": st.sampled_from(DERIVES), "i": i, "pick": i})
     handle = st.fixed_dictionaries({"k": st.just("handle"), "how": st.sampled_from(HANDLES), "i": i, "pick": i})
     op = st.fixed_dictionaries({"k": st.just("op"), "how": st.sampled_from(OPS), "i": i, "pick": i})
     write = st.fixed_dictionaries({"k": st.just("write"), "how": st.sampled_from(WRITES), "j": st.integers(0, 15),
                                    "seed": st.integers(0, 99)})
-    return st.lists(st.one_of(construct, derive, handle, handle, op, write, write, write), min_size=2, max_size=14)
+    touch = st.fixed_dictionaries({"k": st.just("touch"), "how": st.sampled_from(TOUCHES), "j": st.integers(0, 15)})
+    return st.lists(st.one_of(construct, derive, handle, handle, op, touch, touch, write, write, write),
+                    min_size=2, max_size=14)
 
 
 def hunt(job):
@@ -439,7 +490,7 @@ def main(argv):
     if a.replay:
         return replay(a.replay)
     rep = harness.Report(PROP, a.tier, a.seed, "exploration")
-    nproc, nex = (16, 400) if a.tier == "quick" else (64, 4000)
+    nproc, nex = (16, 1000) if a.tier == "quick" else (64, 6000)
     jobs = [{"hseed": core.h64(a.seed, "c07", i) % (2**31), "examples": nex} for i in range(nproc)]
     results = harness.pmap(hunt, jobs, chunk=1, hang_s=1500)
     stats, nontriv, runs, samples = {}, set(), 0, []
